@@ -4,6 +4,7 @@ use elf::endian::AnyEndian;
 use elf::file::Class;
 use elf::ElfBytes;
 
+fn on(p: &str) -> bool { match std::env::var("VERIF_ORACLE_PROP") { Ok(v) if !v.is_empty() && v != "C01" => v == p, _ => true } }
 struct Lcg(u64);
 impl Lcg { fn next(&mut self, n: u64) -> u64 { self.0 = self.0.wrapping_mul(6364136223846793005).wrapping_add(1442695040888963407); (self.0 >> 33) % n } }
 
@@ -234,12 +235,13 @@ pub fn check_hash_tables(c: &HashCase) -> Result<(), String> {
             Err(x) => if well_formed { Err(format!("{}: lookup of {:?} in a well-formed table is Err({:?})", tag(which), q, x)) } else { Ok(()) },
         }
     };
-    let sysv_t = SysVHashTable::new(e, class, &sysv); let gnu_t = GnuHashTable::new(e, class, &gnu);
-    if well_formed && sysv_t.is_err() { return Err("C12: a well-formed .hash section is rejected by SysVHashTable::new()".into()); }
-    if well_formed && gnu_t.is_err() { return Err("C11: a well-formed .gnu.hash section is rejected by GnuHashTable::new()".into()); }
+    let sysv_t = if on("C12") { SysVHashTable::new(e, class, &sysv) } else { Err(elf::ParseError::BadMagic([0; 4])) }; let gnu_t = if on("C11") { GnuHashTable::new(e, class, &gnu) } else { Err(elf::ParseError::BadMagic([0; 4])) };
+    if well_formed && on("C12") && sysv_t.is_err() { return Err("C12: a well-formed .hash section is rejected by SysVHashTable::new()".into()); }
+    if well_formed && on("C11") && gnu_t.is_err() { return Err("C11: a well-formed .gnu.hash section is rejected by GnuHashTable::new()".into()); }
     for (q, present) in c.names.iter().map(|n| (n, true)).chain(c.absent.iter().filter(|a| !c.names.contains(a)).map(|n| (n, false))) {
-        if let Ok(t) = &sysv_t { check("SysV", t.find(q, &syms, &st), q, present)?; }
-        if let Ok(t) = &gnu_t { check("GNU", t.find(q, &syms, &st), q, present)?; }
+        // the calls themselves are gated by the property being checked: a panic in the GNU lookup is not a C12 failure
+        if on("C12") { if let Ok(t) = &sysv_t { check("SysV", t.find(q, &syms, &st), q, present)?; } }
+        if on("C11") { if let Ok(t) = &gnu_t { check("GNU", t.find(q, &syms, &st), q, present)?; } }
     }
     Ok(())
 }
